@@ -14,7 +14,7 @@ DEMO=$(ls seed/*.rs 2>/dev/null | head -1)
 run_demo() {
   if [ -n "$DEMO" ]; then
     cp "$DEMO" core/tests/seed_demo.rs
-    timeout 900 cargo test --offline -p open-coroutine-core --features verif --test seed_demo -- --test-threads=1 >> "$LOG" 2>&1
+    timeout 900 cargo test --offline -p open-coroutine-core --features ${SEED_FEATURES:-verif} --test seed_demo -- --test-threads=1 >> "$LOG" 2>&1
     rc=$?
     rm -f core/tests/seed_demo.rs
     return $rc
